@@ -517,7 +517,44 @@ func randomGrammar(r *rng.R) gcase {
 		nn = len(nts)
 	}
 	nt := r.Range(1, 3)
-	terms := []string{"a", "b", "c"}[:nt]
+	terms := append([]string{}, []string{"a", "b", "c"}[:nt]...)
+	if r.Chance(1, 5) {
+		// terminals spelled like non-terminals of this grammar (also like suffixed names): a terminal
+		// "A" is not the non-terminal A (IsLeftRecursive, starts-with tests, TERM's NonTerminal(t))
+		for i := range terms {
+			if r.Chance(1, 2) {
+				if r.Chance(2, 3) {
+					terms[i] = nts[r.Intn(nn)]
+				} else {
+					terms[i] = nts[r.Intn(nn)] + []string{"′", "₁", "ₙ"}[r.Intn(3)]
+				}
+			}
+		}
+		seenT := map[string]bool{}
+		var ut []string
+		for _, t := range terms {
+			if !seenT[t] {
+				seenT[t] = true
+				ut = append(ut, t)
+			}
+		}
+		terms = ut
+		nt = len(terms)
+	}
+	if r.Chance(1, 12) {
+		// the endmarker used as an ordinary terminal of the caller's grammar
+		terms[r.Intn(nt)] = string(grammar.Endmarker)
+		seenT := map[string]bool{}
+		var ut []string
+		for _, t := range terms {
+			if !seenT[t] {
+				seenT[t] = true
+				ut = append(ut, t)
+			}
+		}
+		terms = ut
+		nt = len(terms)
+	}
 	maxBody := []int{2, 3, 4, 6, 8}[r.Intn(5)]
 	pNull := r.Intn(4)   // weight of ε alternatives
 	pUnit := r.Intn(4)   // weight of unit alternatives
@@ -540,6 +577,9 @@ func randomGrammar(r *rng.R) gcase {
 	c := gcase{start: nts[0]}
 	for i, A := range nts {
 		alts := r.Range(1, 4)
+		if r.Chance(1, 4) {
+			alts = r.Range(4, 6)
+		}
 		var mine [][]sym
 		for k := 0; k < alts; k++ {
 			var body []sym
@@ -574,6 +614,10 @@ func randomGrammar(r *rng.R) gcase {
 	if r.Chance(1, 8) {
 		c.extraT = []string{"z"}
 	}
+	if r.Chance(1, 8) {
+		// endmarker declared (unused) among the caller's terminals
+		c.extraT = append(c.extraT, string(grammar.Endmarker))
+	}
 	return c
 }
 
@@ -581,7 +625,7 @@ func randomGrammar(r *rng.R) gcase {
 func adversarial(w *tr.W, r *rng.R, n int, ops []string) {
 	for i := 0; i < n; i++ {
 		var c gcase
-		switch i % 6 {
+		switch i % 9 {
 		case 0: // long body, every position nullable (D08a)
 			k := r.Range(4, 8)
 			c.start = "S"
@@ -639,6 +683,57 @@ func adversarial(w *tr.W, r *rng.R, n int, ops []string) {
 				c.prods = append(c.prods, prod{"A", []sym{T("a")}}, prod{"B", []sym{NT("B")}})
 			default:
 				c.prods = append(c.prods, prod{"A", []sym{NT("A"), T("a")}}, prod{"B", []sym{}})
+			}
+		case 6: // two or three distinct factorable prefixes per head plus singleton alternatives (LeftFactor)
+			c.start = "S"
+			tn := []string{"if", "id", "x", "y"}
+			groups := r.Range(2, 3)
+			for gi := 0; gi < groups; gi++ {
+				pre := []sym{T(tn[gi])}
+				if r.Bool() {
+					pre = append(pre, T("e"))
+				}
+				k := r.Range(2, 3)
+				for j := 0; j < k; j++ {
+					suf := []sym{}
+					for l := 0; l <= j; l++ {
+						suf = append(suf, T([]string{"a", "b", "c", "d"}[(gi*2+j+l)%4]))
+					}
+					if r.Chance(1, 3) {
+						suf = append(suf, NT("S"))
+					}
+					c.prods = append(c.prods, prod{"S", append(append([]sym{}, pre...), suf...)})
+				}
+			}
+			c.prods = append(c.prods, prod{"S", []sym{T("skip")}})
+			if r.Bool() {
+				c.prods = append(c.prods, prod{"S", []sym{T("z"), NT("S")}})
+			}
+		case 7: // terminals spelled like non-terminals, at body position 0 and elsewhere
+			c.start = "L"
+			c.prods = append(c.prods,
+				prod{"L", []sym{T("L"), T("("), NT("I"), T(")")}}, prod{"L", []sym{T("nil")}},
+				prod{"I", []sym{NT("L")}}, prod{"I", []sym{NT("L"), T(","), NT("I")}}, prod{"I", []sym{T("n")}})
+			switch r.Intn(3) {
+			case 0:
+				c.prods = append(c.prods, prod{"I", []sym{T("I"), NT("I")}})
+			case 1:
+				c.prods = append(c.prods, prod{"L", []sym{NT("L"), T("L")}})
+			default:
+				c.prods = append(c.prods, prod{"I", []sym{T("L′"), T("I")}})
+			}
+		case 8: // the endmarker as a terminal of the caller's grammar, used in a body or only declared
+			c.start = "P"
+			em := string(grammar.Endmarker)
+			if r.Bool() {
+				c.prods = append(c.prods, prod{"P", []sym{NT("S"), T(em)}})
+			} else {
+				c.prods = append(c.prods, prod{"P", []sym{NT("S")}})
+				c.extraT = []string{em}
+			}
+			c.prods = append(c.prods, prod{"S", []sym{T("a"), NT("S")}}, prod{"S", []sym{T("b")}})
+			if r.Bool() {
+				c.prods = append(c.prods, prod{"S", []sym{}})
 			}
 		default: // long bodies mixing terminals and non-terminals (TERM/BIN chains)
 			c.start = "S"
